@@ -717,7 +717,7 @@ def r2_r3(ctx: Ctx, rep: Report):
             elif kind == "field":
                 digits += p[1]
             else:
-                sym_bytes.append(norm(p))
+                sym_bytes.append(norm(expand_locals(p, fn.node)))        # (the encoded bytes may be held in a local first)
         head = ""
         for kind, p in parts:
             if kind == "lit":
